@@ -2,6 +2,9 @@ import RactorModel.Extracted
 import RactorModel.Lemmas.LifeC03
 import RactorModel.Lemmas.LifeC03Spec
 import RactorModel.Lemmas.LifeWorld
+import RactorModel.Lemmas.LifeLive
+import RactorModel.Lemmas.LifeDrain
+import RactorModel.Lemmas.LifeRace
 
 /-!
 # C03 — Kill > stop > supervision > messages; stop is graceful, kill immediate
@@ -229,6 +232,264 @@ example : Life.C03.ok [.enter .handle (.msg 1), .aborted, .cancelled .handle] = 
 theorem src_async_std_select_twins :
     Extracted.asyncStdSelectTwins = [("listen_in_priority", true), ("run_with_signal", true)] := by decide
 
+/-! ### Liveness (wave 2): kill, stop, abort all END in `Stopped` with the guard disarmed
+
+`Dead a` = ports dropped (`phase = done`), `status = Stopped`, lifecycle guard disarmed, nothing left in the
+signal / stop port, child set closed (`kids = none`), no supervisor. `Alive a` = the cell exists, its ports are open and the guard is armed. Every reachable
+state is one of: no cell yet, `Alive`, `Dead` (`reachable`). The *task* of an actor is the spawn future /
+instant start task while it exists (`cell`, `pre`: op `pollSpawn`) and the loop task afterwards (op `poll`):
+`taskPoll a op`. `pollCount a ops` counts the task polls along a run. All theorems below quantify over every
+op sequence, i.e. the environment (API callers, supervisor, children, the script supplying segments) may do
+anything between the polls. This is what C05's hypothesis `Rest` needs from this model (`Props/C05Life.lean`). -/
+
+open Life.Liveness
+
+/-- Every reachable actor state: no cell yet (and nothing in its signal / stop port), or alive with the guard
+armed, or `Dead`. In particular `phase = done → status = Stopped ∧ ¬armed`. -/
+theorem reachable (id : Nat) (ops : List AOp) : Reach ((Actor.init id).run ops).1 :=
+  reach_run ops _ (reach_init id)
+
+/-- A kill is accepted in EVERY phase in which the cell exists (instant `cell`, `pre_start`, loop task not
+yet polled, `post_start`, idle, a handler suspended at any segment, `post_stop`) as long as the signal sender
+is still in the cell, and it then sits in the signal port. -/
+theorem kill_accepted_any_phase (a : Actor) (h : Alive a) (htx : a.sigTx = true) :
+    (a.step .kill).1.sigVal = true ∧ Ev.killRet false true ∈ evs (a.step .kill).2 ∧ Alive (a.step .kill).1 := by
+  have hpo : a.portsOpen = true := by
+    obtain ⟨h1, h2, _⟩ := h
+    cases hp : a.phase <;> simp_all [Actor.portsOpen]
+  have e : (a.stepCore .kill) = ((apiKill a).1, [.ev (.killRet false (apiKill a).2)]) := by
+    simp [Actor.stepCore, h.1, Actor.envOp]
+  have e2 : apiKill a = ({ a with sigTx := false, sigVal := true, woken := a.woken || a.sigW }, true) := by
+    simp [apiKill, htx, hpo]
+  refine ⟨?_, ?_, ?_⟩
+  · show (a.stepCore .kill).1.sigVal = true
+    rw [e, e2]
+  · rw [step_eq, e, e2]; simp
+  · show Alive (a.stepCore .kill).1
+    rw [e, e2]; exact ⟨h.1, h.2.1, h.2.2⟩
+
+/-- Every alive actor has a task that can be polled. -/
+theorem alive_has_task (a : Actor) (h : Alive a) : taskPoll a .poll = true ∨ taskPoll a (.pollSpawn true) = true := by
+  obtain ⟨h1, h2, _⟩ := h
+  cases hp : a.phase <;> simp_all [taskPoll, Phase.isTask]
+
+/-- **Kill reaches Stopped at the NEXT poll of the actor's task (N = 1), from any phase.** A kill is in the
+signal port of a reachable actor: the poll ends the actor (`Stopped`, guard disarmed, ports dropped) and emits
+no `enter` / `tick` / `exit` of any callback. -/
+theorem kill_next_poll (a : Actor) (hr : Reach a) (hs : a.sigVal = true) (op : AOp) (hp : taskPoll a op = true) :
+    Dead (a.step op).1 ∧ ∀ e ∈ evs (a.step op).2, Life.C03.isProgress e = false := by
+  obtain ⟨_, h2, h3⟩ := kill_step a op (hr.alive_of_sig hs) hs
+  exact ⟨h2 hp, step_np a op h3⟩
+
+/-- **Kill reaches Stopped (state level), all environments.** With a kill in the signal port, along EVERY
+continuation `ops`: no callback is entered, passes a suspension point or returns; as soon as `ops` contains one
+poll of the actor's task (or an abort / dropped start) the actor is `Stopped` with the guard disarmed — and
+stays so; until then the kill stays pending. -/
+theorem kill_pending_reaches_stopped (a : Actor) (hr : Reach a) (hs : a.sigVal = true) (ops : List AOp) :
+    (∀ e ∈ (a.run ops).2, Life.C03.isProgress e = false) ∧
+    (1 ≤ pollCount a ops →
+      (a.run ops).1.status = .stopped ∧ (a.run ops).1.armed = false ∧ (a.run ops).1.phase = .done) ∧
+    (Dead (a.run ops).1 ∨ (Alive (a.run ops).1 ∧ (a.run ops).1.sigVal = true)) := by
+  obtain ⟨h1, h2, h3⟩ := kill_run ops a (hr.alive_of_sig hs) hs
+  exact ⟨h3, fun hc => ⟨(h2 hc).2.1, (h2 hc).2.2.1, (h2 hc).1⟩, h1⟩
+
+/-- **Kill reaches Stopped (trace level).** Once the trace contains an accepted kill — `kill()` from outside,
+`myself.kill()` inside a callback, or the supervisor's `terminate()` (`treeKill`) — in whatever phase it was
+accepted: every continuation is free of callback progress and one poll of the actor's task suffices for
+`Stopped` + guard disarmed. -/
+theorem kill_reaches_stopped (id : Nat) (ops0 ops : List AOp)
+    (hk : ∃ e ∈ trace id ops0, Life.C03.isKillAcc e = true) :
+    (∀ e ∈ (((Actor.init id).run ops0).1.run ops).2, Life.C03.isProgress e = false) ∧
+    (1 ≤ pollCount ((Actor.init id).run ops0).1 ops →
+      (((Actor.init id).run ops0).1.run ops).1.status = .stopped ∧
+      (((Actor.init id).run ops0).1.run ops).1.armed = false ∧
+      (((Actor.init id).run ops0).1.run ops).1.phase = .done) := by
+  rcases kill_event_pending id ops0 hk with hd | ⟨hal, hs⟩
+  · obtain ⟨h1, h2⟩ := dead_run ops _ hd
+    exact ⟨h2, fun _ => ⟨h1.2.1, h1.2.2.1, h1.1⟩⟩
+  · obtain ⟨h1, h2, _⟩ := kill_pending_reaches_stopped _ (Or.inr (Or.inl hal)) hs ops
+    exact ⟨h1, h2⟩
+
+/-- **Stop progress (state level).** A stop is in the stop port, or `post_stop` is open (`StopPend`). Along every
+continuation: the actor ends, or the stop stays pending and `rank` (cell 5 > pre_start 4 > loop not yet polled 3 >
+post_start / idle / handler 2 > post_stop 1) has fallen by at least the number of EFFECTIVE polls — task polls
+that do not find the open callback still suspended (`effPoll`: no callback open, or the script supplied a
+returning segment, or a kill is pending). Nothing the environment does makes the rank grow. -/
+theorem stop_pending_progress (a : Actor) (h : Alive a) (hs : StopPend a) (ops : List AOp) :
+    Dead (a.run ops).1 ∨
+    (Alive (a.run ops).1 ∧ StopPend (a.run ops).1 ∧ rank (a.run ops).1 + effCount a ops ≤ rank a) :=
+  stop_run ops a h hs
+
+/-- **Stop reaches Stopped.** After an accepted stop (`stopRet _ _ true` in the trace: `stop()` from outside or
+`myself.stop()` in a callback), if the continuation contains `rank ≤ 5` effective polls — i.e. every callback
+that is or becomes open returns after finitely many resumes and the task keeps being polled — the actor is
+`Stopped` with the guard disarmed. -/
+theorem stop_reaches_stopped (id : Nat) (ops0 ops : List AOp)
+    (hk : ∃ e ∈ trace id ops0, isStopAcc e = true)
+    (hfair : rank ((Actor.init id).run ops0).1 ≤ effCount ((Actor.init id).run ops0).1 ops) :
+    (((Actor.init id).run ops0).1.run ops).1.status = .stopped ∧
+    (((Actor.init id).run ops0).1.run ops).1.armed = false ∧
+    (((Actor.init id).run ops0).1.run ops).1.phase = .done := by
+  have fin : Dead (((Actor.init id).run ops0).1.run ops).1 := by
+    rcases stop_event_pending id ops0 hk with hd | ⟨hal, hs⟩
+    · exact (dead_run ops _ hd).1
+    · rcases stop_run ops _ hal hs with hd | ⟨h1, _, h3⟩
+      · exact hd
+      · have := rank_pos h1; omega
+  exact ⟨fin.2.1, fin.2.2.1, fin.1⟩
+
+/-- The bound is uniform: five effective polls always suffice. -/
+theorem stop_reaches_stopped_5 (id : Nat) (ops0 ops : List AOp)
+    (hk : ∃ e ∈ trace id ops0, isStopAcc e = true)
+    (hfair : 5 ≤ effCount ((Actor.init id).run ops0).1 ops) :
+    (((Actor.init id).run ops0).1.run ops).1.status = .stopped ∧
+    (((Actor.init id).run ops0).1.run ops).1.armed = false :=
+  have h := stop_reaches_stopped id ops0 ops hk (Nat.le_trans (rank_le _) hfair)
+  ⟨h.1, h.2.1⟩
+
+/-- **An aborted task reaches Stopped in the abort step itself**, whichever callback was open. -/
+theorem abort_reaches_stopped (a : Actor) (hr : Reach a) (ht : a.phase.isTask = true) :
+    Dead (a.step .abort).1 := by
+  have hal : Alive a := by
+    rcases hr with h | h | h
+    · rw [h.1] at ht; cases ht
+    · exact h
+    · rw [h.1] at ht; cases ht
+  exact opAbort_dead a hal.2.2 ht
+
+/-- **A dropped spawn future / aborted instant start task reaches Stopped in that step.** -/
+theorem drop_spawn_reaches_stopped (a : Actor) (hr : Reach a) (hp : a.phase = .cell ∨ a.phase = .pre) :
+    Dead (a.step .dropSpawn).1 := by
+  have hal : Alive a := by
+    rcases hr with h | h | h
+    · rcases hp with hp | hp <;> rw [h.1] at hp <;> cases hp
+    · exact h
+    · rcases hp with hp | hp <;> rw [h.1] at hp <;> cases hp
+  exact opDropSpawn_dead a hal.2.2 hp
+
+/-! Non-vacuity: a kill accepted in each phase, then one task poll; without the poll the actor is not stopped. -/
+
+-- instant cell, never polled
+example : ((Actor.init 0).run [.spawnInstant none none true false, .kill, .pollSpawn true]).1.status = .stopped := by decide
+example : ((Actor.init 0).run [.spawnInstant none none true false, .kill]).1.status = .unstarted := by decide
+-- inside pre_start
+example : ((Actor.init 0).run [.spawn none none true false true, .kill, .resume ⟨[], .ok⟩, .pollSpawn true]).1.status
+    = .stopped := by decide
+-- loop task never polled / inside post_start
+example : ((Actor.init 0).run [.spawn none none true false true, .resume ⟨[], .ok⟩, .pollSpawn true, .kill, .poll]).1.status
+    = .stopped := by decide
+example : ((Actor.init 0).run [.spawn none none true false true, .resume ⟨[], .ok⟩, .pollSpawn true, .poll, .kill,
+    .resume ⟨[], .ok⟩, .poll]).1.status = .stopped := by decide
+-- handler suspended at its second segment, kill by the supervisor's terminate()
+example : ((Actor.init 0).run [.spawn none none true false true, .resume ⟨[], .ok⟩, .pollSpawn true, .poll,
+    .resume ⟨[], .ok⟩, .send 1, .poll, .resume ⟨[], .tick⟩, .poll, .treeTaken, .resume ⟨[], .ok⟩, .send 2, .stop none,
+    .poll]).1.status = .stopped := by decide
+-- inside post_stop
+example : ((Actor.init 0).run [.spawn none none true false true, .resume ⟨[], .ok⟩, .pollSpawn true, .poll,
+    .resume ⟨[], .ok⟩, .stop none, .poll, .kill, .resume ⟨[], .ok⟩, .poll]).1.status = .stopped := by decide
+-- the kill is pending and the actor is not stopped before the poll
+example : ((Actor.init 0).run [.spawn none none true false true, .resume ⟨[], .ok⟩, .pollSpawn true, .poll,
+    .resume ⟨[], .ok⟩, .stop none, .poll, .kill, .resume ⟨[], .ok⟩]).1.status = .stopping := by decide
+-- graceful stop accepted during pre_start: 4 effective polls (rank of `pre`)
+example : effCount ((Actor.init 0).run [.spawn none none true false true, .stop none]).1
+    [.resume ⟨[], .ok⟩, .pollSpawn true, .poll, .poll, .resume ⟨[], .tick⟩, .poll, .resume ⟨[], .ok⟩, .poll,
+     .resume ⟨[], .ok⟩, .poll] = 4 := by decide
+example : ((Actor.init 0).run [.spawn none none true false true, .stop none,
+    .resume ⟨[], .ok⟩, .pollSpawn true, .poll, .poll, .resume ⟨[], .tick⟩, .poll, .resume ⟨[], .ok⟩, .poll,
+     .resume ⟨[], .ok⟩, .poll]).1.status = .stopped := by decide
+-- abort while a handler is open
+example : ((Actor.init 0).run [.spawn none none true false true, .resume ⟨[], .ok⟩, .pollSpawn true, .poll,
+    .resume ⟨[], .ok⟩, .send 1, .poll, .abort]).1.status = .stopped := by decide
+
+/-! ### Liveness of `drain` (wave 2)
+
+`DrainPend a`: the drain marker is in the mailbox (or `post_stop` is open). `dmeas a` = phase rank + number of
+supervision events queued + number of mailbox items in front of the marker: what the loop still has to do before
+it picks the marker. The only way the environment can add to it is a supervision event handed to the port
+(`supCount ops`, one each) — messages sent later go BEHIND the marker (or are refused). -/
+
+/-- The first `drain()` on a live actor puts the marker into the mailbox. -/
+theorem drain_enqueues_marker (a : Actor) (h : Alive a) (hm : a.markerSent = false) :
+    Item.drain ∈ (a.step .drain).1.msgQ ∧ Ev.drainRet true ∈ evs (a.step .drain).2 := by
+  have hpo : a.portsOpen = true := by
+    obtain ⟨h1, h2, _⟩ := h
+    cases hp : a.phase <;> simp_all [Actor.portsOpen]
+  have e : (a.stepCore .drain) = ((apiDrain a).1, [.ev (.drainRet (apiDrain a).2)]) := by
+    simp [Actor.stepCore, h.1, Actor.envOp]
+  have e2 : Item.drain ∈ (apiDrain a).1.msgQ ∧ (apiDrain a).2 = true := by
+    simp [apiDrain, hm, hpo, Actor.portsOpen]
+    cases hp : a.phase <;> simp_all [Actor.portsOpen]
+  constructor
+  · show Item.drain ∈ (a.stepCore .drain).1.msgQ
+    rw [e]; exact e2.1
+  · rw [step_eq, e, e2.2]; simp
+
+/-- **Drain progress, all environments.** The marker stays queued until the loop picks it, the measure grows by at
+most one per supervision event handed in and falls with every effective poll. -/
+theorem drain_pending_progress (a : Actor) (h : Alive a) (hs : DrainPend a) (ops : List AOp) :
+    Dead (a.run ops).1 ∨
+    (Alive (a.run ops).1 ∧ DrainPend (a.run ops).1 ∧
+      dmeas (a.run ops).1 + effCount a ops ≤ dmeas a + supCount ops) :=
+  drain_run ops a h hs
+
+/-- **Drain reaches Stopped.** With the marker enqueued, a continuation that contains as many effective polls as
+`dmeas a` plus the supervision events it hands in (every handler that is or becomes open returns after finitely many
+resumes, the task keeps being polled, the supervision traffic is finite) ends `Stopped` with the guard disarmed. -/
+theorem drain_reaches_stopped (a : Actor) (h : Alive a) (hd : Item.drain ∈ a.msgQ) (ops : List AOp)
+    (hfair : dmeas a + supCount ops ≤ effCount a ops) :
+    (a.run ops).1.status = .stopped ∧ (a.run ops).1.armed = false ∧ (a.run ops).1.phase = .done := by
+  rcases drain_run ops a h (Or.inl hd) with hx | ⟨h1, _, h3⟩
+  · exact ⟨hx.2.1, hx.2.2.1, hx.1⟩
+  · have := dmeas_pos h1; omega
+
+-- two messages queued before the marker, one supervision event arrives meanwhile: measure 2+0+2 = 4, +1
+example : dmeas ((Actor.init 0).run [.spawn none none true false true, .resume ⟨[], .ok⟩, .pollSpawn true, .poll,
+    .send 1, .send 2, .drain]).1 = 4 := by decide
+example : ((Actor.init 0).run [.spawn none none true false true, .resume ⟨[], .ok⟩, .pollSpawn true, .poll,
+    .send 1, .send 2, .drain,
+    .resume ⟨[], .ok⟩, .poll, .supArrive (.started 7), .send 3, .resume ⟨[], .ok⟩, .poll, .resume ⟨[], .ok⟩, .poll,
+    .resume ⟨[], .ok⟩, .poll, .resume ⟨[], .ok⟩, .poll]).1.status = .stopped := by decide
+example : effCount ((Actor.init 0).run [.spawn none none true false true, .resume ⟨[], .ok⟩, .pollSpawn true, .poll,
+    .send 1, .send 2, .drain]).1
+    [.resume ⟨[], .ok⟩, .poll, .supArrive (.started 7), .send 3, .resume ⟨[], .ok⟩, .poll, .resume ⟨[], .ok⟩, .poll,
+    .resume ⟨[], .ok⟩, .poll, .resume ⟨[], .ok⟩, .poll] = 5 := by decide
+
+/-! ### Poll atomicity: a kill landing INSIDE a poll (wave 2, audit §4 / §5.4)
+
+The model's poll is atomic: `listen` / `pollOpen` test the signal port and go on within one op. On a multi-thread
+runtime a `kill()` issued from another OS thread can land between the signal test of `run_with_signal` /
+`select!{biased}` and the rest of that same poll; `kill()` has then returned while the poll still starts a callback
+or runs one more segment — an order of events (`killRet … true` BEFORE `enter`/`tick`/`exit` of that poll) the
+strict automaton `C03.next` rejects and no run of the single-thread engine produces. That racing poll computes
+exactly what `poll` computes on the state its signal test saw, and the kill is in the port afterwards, i.e. the
+state after the race is the state after `[poll, kill]`. The two theorems bound the violation: what the racing poll
+can still do, and that the next poll ends the actor without any further progress. -/
+
+/-- **One poll emits at most one `enter`, one `tick` and one `exit`**: the callback progress that can follow a
+`kill()` that returned in the middle of a poll is at most one segment of the open callback (`tick`, `exit`) and
+the start of at most one callback (`enter`). For every state, reachable or not. -/
+theorem poll_progress_bounded (a : Actor) : B3 (a.step .poll).2 1 1 1 := step_poll_B3 a
+
+/-- **… and the next poll cancels.** `a` reachable; `b` = after a poll (the one the kill raced with), `c` = after the
+kill that the signal port accepted during it: every poll of the actor's task from `c` ends the actor (`Stopped`,
+guard disarmed) with no callback progress at all, and so does every continuation that contains one
+(`kill_pending_reaches_stopped`). The relaxed oracle for a multi-thread harness is therefore: after `killRet … true`
+at most the progress of ONE poll (`poll_progress_bounded`), then none. -/
+theorem kill_inside_poll_bounded (a : Actor) (hr : Reach a)
+    (hacc : (apiKill (a.step .poll).1).2 = true) (op : AOp)
+    (hp : taskPoll ((a.step .poll).1.step .kill).1 op = true) :
+    Dead (((a.step .poll).1.step .kill).1.step op).1 ∧
+    ∀ e ∈ evs (((a.step .poll).1.step .kill).1.step op).2, Life.C03.isProgress e = false :=
+  kill_next_poll _ (reach_step _ _ (reach_step _ _ hr)) (kill_step_sigVal _ hacc) op hp
+
+-- the strict automaton rejects the racing order, the bound is what remains true
+example : Life.C03.ok [.enter .handle (.msg 1), .killRet false true, .tick .handle, .exit .handle .ok,
+    .enter .handle (.msg 2)] = false := by decide
+-- a poll that really emits one tick, one exit and one enter
+example : ((evs (((Actor.init 0).run [.spawn none none true false true, .resume ⟨[], .ok⟩, .pollSpawn true, .poll,
+    .resume ⟨[], .ok⟩, .send 1, .send 2, .poll, .resume ⟨[], .ok⟩]).1.step .poll).2).filter Life.C03.isProgress)
+    = [.tick .handle, .exit .handle .ok, .enter .handle (.msg 2)] := by decide
+
 end C03
 
 #print axioms C03.priority
@@ -246,3 +507,19 @@ end C03
 #print axioms C03.src_select_biased
 #print axioms C03.src_run_with_signal
 #print axioms C03.src_async_std_select_twins
+#print axioms C03.reachable
+#print axioms C03.kill_accepted_any_phase
+#print axioms C03.alive_has_task
+#print axioms C03.kill_next_poll
+#print axioms C03.kill_pending_reaches_stopped
+#print axioms C03.kill_reaches_stopped
+#print axioms C03.stop_pending_progress
+#print axioms C03.stop_reaches_stopped
+#print axioms C03.stop_reaches_stopped_5
+#print axioms C03.abort_reaches_stopped
+#print axioms C03.drop_spawn_reaches_stopped
+#print axioms C03.drain_enqueues_marker
+#print axioms C03.drain_pending_progress
+#print axioms C03.drain_reaches_stopped
+#print axioms C03.poll_progress_bounded
+#print axioms C03.kill_inside_poll_bounded
